@@ -308,12 +308,14 @@ pub fn run(ctx: &Ctx) -> PropResult {
             gen_fmt_value(rng)
         } else {
             // years 1..=9999, whole-minute offsets
-            let off = match rng.below(3) {
+            let off = match rng.below(4) {
                 0 => 0,
+                1 => *rng.pick(&[1439i32, -1439, 1438, 1430, -1430, 1400, 60, -60, 720]) * 60,
                 _ => rng.range_i64(-1439, 1439) as i32 * 60,
             };
             let hi = cal::days_from_civil(9999, 12, 31) as i128 * D + D - 1;
-            let local = match rng.below(6) {
+            let local = match rng.below(8) {
+                6 | 7 => (crate::model::magic::gen_instant_at(rng, 0, hi) - if rng.chance(1, 2) { rng.range_i128(0, D) } else { 0 } + off as i128 * NS).clamp(0, hi),
                 0 => rng.range_i128(0, 2 * D),
                 1 => hi - rng.range_i128(0, 2 * D),
                 // local reading exactly on a midnight, or the UTC instant exactly on one (± 1 s / 1 ns)
@@ -324,6 +326,23 @@ pub fn run(ctx: &Ctx) -> PropResult {
             (local - off as i128 * NS, off)
         };
         judge_datetime(rec, i, off);
+    }));
+    // one instant shown under several offsets in a row on one thread (and the first again): a "last value" cache in
+    // Display / Serialize keyed by == (which ignores the offset) would repeat the first text
+    wls.push(Workload::cases("same_instant_under_changing_offsets_in_sequence", ctx.count(30_000, 1_000_000), |rec, _, rng| {
+        let hi = cal::days_from_civil(9999, 12, 31) as i128 * D + D - 1;
+        let i = rng.range_i128(2 * D, hi - 2 * D);
+        let o1 = rng.range_i64(-1439, 1439) as i32 * 60;
+        let o2 = if rng.chance(1, 3) { 0 } else { rng.range_i64(-1439, 1439) as i32 * 60 };
+        let o3 = gen_offset(rng);
+        rec.bin("datetime/same-instant-offset-sequence");
+        for o in [o1, o2, o1, o3, 0, o2] {
+            judge_datetime(rec, i, o);
+        }
+        let n = rng.below(86_400_000_000_000);
+        for o in [o1, o2, o1, o3, 0, o2] {
+            judge_time(rec, n, o);
+        }
     }));
     wls.push(Workload::cases("malformed_strings", ctx.count(150_000, 4_000_000), |rec, idx, rng| {
         let (kind, base): (Kind, String) = match idx % 3 {
@@ -343,7 +362,7 @@ pub fn run(ctx: &Ctx) -> PropResult {
     );
     meta.required_bins = vec![
         "local-twin/zone-switch-judged",
-        "year/negative", "year/negative-5+digits", "year/5+digits", "year/<4digits", "year/4digits", "time/offset0", "time/with-offset", "time/local-midnight-stratum",
+        "year/negative", "year/negative-5+digits", "year/5+digits", "year/<4digits", "year/4digits", "time/offset0", "time/with-offset", "time/local-midnight-stratum", "datetime/same-instant-offset-sequence",
         "datetime/serde-claimed", "datetime/display-only", "datetime/negative-offset", "malformed/rejected",
     ];
     meta.assumptions = vec!["serde is exercised through serde_json (string serializer/deserializer); fmt_spec supplies the documented default renderings".into()];
